@@ -665,6 +665,9 @@ func genForge(r *rand.Rand, id string, size int, total int) []string {
 				g.add("forge %d recipe=own base=none k=%s v=%s", att, hx(keys[g.pick(2)]), hx(g.value()))
 				g.add("dropblock @last")
 				g.add("forge %d recipe=%s as=%d base=%s extra=@last k=%s v=%s", att, rec, as, base, hx(keys[g.pick(2)]), hx(g.value()))
+			} else if rec == "wronghash" && g.pick(2) == 0 {
+				// (the address it claims is one under which no block exists)
+				g.add("forge %d recipe=%s as=%d base=%s claim=nowhere k=%s v=%s", att, rec, as, base, hx(keys[g.pick(2)]), hx(g.value()))
 			} else {
 				g.add("forge %d recipe=%s as=%d base=%s k=%s v=%s", att, rec, as, base, hx(keys[g.pick(2)]), hx(g.value()))
 			}
@@ -1155,6 +1158,11 @@ func genLimit(r *rand.Rand, id string, size int, total int) []string {
 	acl := joinInts(peers)
 	if extra >= 0 {
 		acl = joinInts(append(append([]int{}, peers...), extra))
+	}
+	// a quarter of the scenarios build their stores with the maximum-history option: the limit of a Load
+	// that is given none (or a non-positive one)
+	if g.pick(4) == 0 {
+		sortfn += fmt.Sprintf(" maxhist=%d", []int{0, -1, 1, 2, 3, 5}[g.pick(6)])
 	}
 	g.add("scn %s kind=%s acl=%s peers=%s%s", id, kind, acl, joinInts(peers), sortfn)
 	p := peers[0]
